@@ -499,10 +499,11 @@ def run_mpm(pe, acc, case):
         return out
     data = series()
     data2 = series(0.5)
+    data_small, data_tiny, data_big = series(1e-9), series(1e-12), series(1e9)      # the energies do not depend on the units of the correlator
     exact = sorted(ENERGIES[j] * 1.7 for j in range(k))
     for p in range(1, n):
         admissible = (p >= k) and (n - p >= k) and (n > p)
-        for sets, label in ((data, 'single'), ([data, data2], 'two-sets')):
+        for sets, label in ((data, 'single'), ([data, data2], 'two-sets'), (data_small, 'magnitude-1e-9'), (data_tiny, 'magnitude-1e-12'), (data_big, 'magnitude-1e9')):
             sub = dict(case, p=p, sets=label)
             try:
                 E = pe.mpm.matrix_pencil_method(sets, k=k, p=p)
